@@ -3,6 +3,7 @@ package props
 import (
 	"fmt"
 	"os"
+	"strings"
 	"testing"
 
 	"verif/harness/internal/wr"
@@ -56,4 +57,22 @@ func TestDebugRepeat(t *testing.T) {
 			fmt.Println("DIFF at render", i, firstDiff(first, tr))
 		}
 	}
+}
+
+// TestDebugBoxes prints the box tree built for $VERIF_DOC and the C09 verdict.
+func TestDebugBoxes(t *testing.T) {
+	doc := os.Getenv("VERIF_DOC")
+	if doc == "" {
+		t.Skip("no VERIF_DOC")
+	}
+	h, err := wr.ParseHTML(doc, wr.Opts{})
+	if err != nil {
+		t.Fatal(err)
+	}
+	root := wr.BuildBoxes(h, nil, false, wr.SharedFC("pango"))
+	var sb strings.Builder
+	c09Dump(root, 0, &sb)
+	fmt.Println(sb.String())
+	v := c09Check(&C09Case{HTML: doc})
+	fmt.Println(v.Sig, firstLines(v.Msg, 1))
 }
